@@ -107,6 +107,16 @@ Theorem C18_save_atomic_rejected : forall valid dir f n s rnd cut t,
 Proof. exact crash_invalid. Qed.
 Print Assumptions C18_save_atomic_rejected.
 
+(* A FAULT instead of a kill: whichever primitive step of the save returns an error (the temporary file cannot be
+   created or written, chmod / sync / close / rename fail), the definition holds the old text, the temporary file is
+   removed and no other file is touched - the save is rejected, there is no second attempt on the definition itself. *)
+Theorem C18_save_fault_old : forall valid dir f n s rnd k, (k <= 7)%nat ->
+  fs_get (file_loc dir n) (fault_fs valid dir f n s rnd k) = fs_get (file_loc dir n) f /\
+  fs_get (tmp_of (file_loc dir n) rnd) (fault_fs valid dir f n s rnd k) = None /\
+  (forall q, q <> file_loc dir n -> q <> tmp_of (file_loc dir n) rnd -> fs_get q (fault_fs valid dir f n s rnd k) = fs_get q f).
+Proof. exact save_fault_old. Qed.
+Print Assumptions C18_save_fault_old.
+
 (* no crash state touches a file other than the definition and the temporary file; the temporary file is never
    an entry of the DAG listing, whatever else the directory holds; all steps done = the operation *)
 Theorem C18_save_crash_local : forall valid dir f n s rnd cut t q,
@@ -223,6 +233,11 @@ Example C18_ex_rename_fresh :
   step all_valid all_valid "/d" w_two (ORename "a" "b") = (w_two, RExists, []) /\
   step all_valid all_valid "/d" w_two (OStoreRename "a" "b") = (w_two, RExists, []).
 Proof. exact ex_rename_fresh. Qed.
+
+Example C18_ex_save_fault :
+  map (fun k => fault_fs all_valid "/d" [("/d/a.yaml", "old text")] "a" "new text" "42" k) [2; 3; 4; 7]%nat
+  = [[("/d/a.yaml", "old text")]; [("/d/a.yaml", "old text")]; [("/d/a.yaml", "old text")]; [("/d/a.yaml", "old text")]].
+Proof. exact ex_save_fault. Qed.
 
 Example C18_ex_save_atomic :
   map (fun cut => fs_get "/d/a.yaml" (crash_fs all_valid "/d" [("/d/a.yaml", "old text")] "a" "new text" "42" cut 0))
